@@ -45,6 +45,10 @@ def gen_cases(tier, seed):
                 if not any(letters[i][0] in ('save', 'resave') for i in h[:-1]) and n > 1 and letters[h[-1]][0] in ('save', 'resave'):
                     continue  # histories that only save at the very end observe nothing
                 yield {'k': 'hist', 'cfg': ci, 'h': list(h)}
+                if n >= 2 and sum(1 for i in h if letters[i][0] == 'save') >= 2:
+                    yield {'k': 'hist', 'cfg': ci, 'h': list(h), 'open_all': True}          # all recordings are created before any is saved
+                if n >= 2 and any(letters[i][0] in ('save', 'resave') for i in h[:-1]) and ci in (1, 3):
+                    yield {'k': 'hist', 'cfg': ci, 'h': list(h), 'long_cat': True}          # categories with very long names
 
 
 HLETTERS = [('save', 0), ('save', 1), ('save', 2), ('resave', 0), ('get', 0), ('get', 1), ('get', 2), ('meta', 0), ('meta', 2),
@@ -151,14 +155,21 @@ def _hist_content(i, version):
 def _hist(case, box):
     from playback.exceptions import NoSuchRecording
     cats = ['Op', 'Op', 'OpX']
+    if case.get('long_cat'):
+        long = 'LongOperationName' * 8   # 136 characters: beyond any 128-character shortcut, within the file-system limit
+        cats = [long, long, long + 'X']
     c = box.cassette
     recs = {}     # i -> recording object (created lazily, so ids exist before being saved)
     ids = {}
-    ref = {}      # id -> (data, meta) as saved
+    ref = {}      # recording index -> (data, meta) as saved (NOT keyed by id: two recordings must never answer for each other)
     version = {}
     viols = []
     states = []
     reader = box.fresh()
+    if case.get('open_all'):   # several recordings are open at the same time
+        for i in range(3):
+            recs[i] = c.create_new_recording(cats[i])
+            ids[i] = recs[i].id
     for step, li in enumerate(case['h']):
         op, arg = HLETTERS[li]
         if op in ('save', 'resave'):
@@ -169,6 +180,8 @@ def _hist(case, box):
             if i not in ids:
                 r = c.create_new_recording(cats[i])
                 ids[i] = r.id
+            elif i in recs and i not in ref:
+                r = recs.pop(i)   # created earlier (open_all), saved now
             else:
                 from playback.recordings.memory.memory_recording import MemoryRecording
                 r = MemoryRecording(ids[i])
@@ -177,7 +190,7 @@ def _hist(case, box):
                 r.set_data(k, v)
             r.add_metadata(meta)
             c.save_recording(r)
-            ref[ids[i]] = _hist_content(i, version[i])
+            ref[i] = _hist_content(i, version[i])
         elif op in ('get', 'meta'):
             i = arg
             if i not in ids:
@@ -190,19 +203,19 @@ def _hist(case, box):
                 exc = None
             except Exception as e:
                 got, exc = None, e
-            if rid in ref:
+            if i in ref:
                 if exc is not None:
                     viols.append(viol('hist:fetch-raised:%s' % type(exc).__name__, 'fetch of a saved recording raised after history %s' % [HLETTERS[x] for x in case['h'][:step]], 'value', repr(exc)))
                 elif op == 'get':
-                    compare(viols, 'hist', case['cfg'], got, rid, ref[rid][0], ref[rid][1], f.get_recording_metadata(rid))
+                    compare(viols, 'hist', case['cfg'], got, rid, ref[i][0], ref[i][1], f.get_recording_metadata(rid))
                     if hasattr(got, 'get_all_keys'):   # what a caller does with ITS copy must not reach what later fetches see
                         got['k'] = 'TAMPERED'
                         got.get_metadata()['m'] = 'TAMPERED'
                         d = got.get_data_direct('a"b')
                         if isinstance(d, dict):
                             d['n'] = 'TAMPERED'
-                elif canon(got) != canon(ref[rid][1]):
-                    viols.append(viol('hist:metadata', 'metadata fetched alone differs from what was saved', canon(ref[rid][1]), canon(got)))
+                elif canon(got) != canon(ref[i][1]):
+                    viols.append(viol('hist:metadata', 'metadata fetched alone differs from what was saved', canon(ref[i][1]), canon(got)))
                 elif isinstance(got, dict):
                     got['ver'] = 'TAMPERED'
             else:
@@ -221,7 +234,7 @@ def _hist(case, box):
             if not isinstance(exc, NoSuchRecording):
                 viols.append(viol('never-saved:%s:%s' % (op, 'returned-' + type(got).__name__ if exc is None else type(exc).__name__),
                                   'fetching an id that was never saved must signal NoSuchRecording (%s)' % (CONFIGS[case['cfg']],), 'NoSuchRecording', repr(exc or got)))
-        states.append(repr(sorted((i, version.get(i)) for i in ids if ids[i] in ref)))
+        states.append(repr(sorted((i, version.get(i)) for i in ids if i in ref)))
     uniq = {}
     for v in viols:
         uniq.setdefault(v['sig'], v)
